@@ -61,6 +61,9 @@ type Sim struct {
 	PoolOn     bool
 	// ParkAtMapRange makes every R1 site a park point under ModePark.
 	ParkAtMapRange bool
+	// ParkAtPebble makes every R3 site (Pebble call) a park point under ModePark,
+	// so goroutines that a scan spawns internally are ordered by the tape too.
+	ParkAtPebble bool
 	// PoolSticky makes the simulated pool always hand out the most recently
 	// released object (one object accumulates the whole history of a run).
 	PoolSticky bool
@@ -250,6 +253,10 @@ func Y[T any](x T, site string) T {
 		s.yield(site)
 	case ModeStress:
 		s.stressYield()
+	case ModePark:
+		if s.ParkAtPebble {
+			s.Park("pebble", "")
+		}
 	}
 	return x
 }
